@@ -258,12 +258,18 @@ class Block(Entity):
             raise exceptions.DuplicateName("create_data_array")
         if compression == Compression.Auto:
             compression = self._compr
-        da = DataArray.create_new(self.file, self, data_arrays, name, array_type,
-                                  dtype, shape, compression)
-        if data is not None:
-            da.write_direct(data)
-        da.unit = unit
-        da.label = label
+        try:
+            da = DataArray.create_new(self.file, self, data_arrays, name,
+                                      array_type, dtype, shape, compression)
+            if data is not None:
+                da.write_direct(data)
+            da.unit = unit
+            da.label = label
+        except Exception:
+            # a refused call must not leave a half-made array behind
+            if name in data_arrays:
+                data_arrays.delete(name)
+            raise
         return da
 
     def create_data_frame(self, name="", type_="", col_dict=None,
